@@ -78,6 +78,7 @@ type Result struct {
 	NAssert       int
 	NCheck        int // calls of the native Rangechecker
 	NBinary       int // calls of API.ToBinary
+	NCommit       int // calls of Committer.Commit
 	Injected      []Injection
 	TolerantHints int // honest hint functions that panicked/erred and were replaced by a tolerant copy
 }
@@ -109,6 +110,7 @@ func (e nativeEngine) Compiler() frontend.Compiler { return e }
 type commitEngine struct{ *Engine }
 
 func (e commitEngine) Commit(v ...frontend.Variable) (frontend.Variable, error) {
+	e.res.NCommit++
 	h := sha256.New()
 	for _, x := range v {
 		b := e.val(x).e.Bytes()
